@@ -25,7 +25,7 @@ ITER_CONSUMERS = ('Iterator::for_each', 'Iterator::any', 'Iterator::all', 'Itera
 ITER_ADAPTORS = ('Iterator::filter', 'Iterator::map', 'Iterator::filter_map', 'Iterator::inspect')
 VALUE_COMBINATORS = ('Option::map', 'Option::map_or', 'Option::map_or_else', 'Option::and_then',
                      'Option::is_some_and', 'Option::is_none_or', 'Option::unwrap_or_else', 'Option::filter',
-                     'Option::or_else', 'Option::ok_or_else', 'bool::then',
+                     'Option::or_else', 'Option::ok_or_else', 'Option::get_or_insert_with', 'bool::then',
                      'Result::map', 'Result::map_err', 'Result::and_then', 'Result::unwrap_or_else',
                      'Result::is_ok_and', 'Result::is_err_and', 'Result::map_or')
 DIRECT_CALLS = ('Fn::call', 'FnMut::call_mut', 'FnOnce::call_once')
@@ -211,6 +211,13 @@ class Desugarer:
                     return B.block([assign_place(dest_place, agg_variant(cands[0], var, list(args)), span)],
                                    goto(target, span))
             return B.block([], {'k': 'call', 'decl': fn, 'full': fn, 'callee': fn, 'local': False, 'targs': [],
+                                'args': list(args), 'dest': dest_place, 'target': target, 'unwind': 'continue',
+                                'span': span, 'exp': False, 'synthetic': True})
+        if self.raw[cpath]['kind'] != 'Closure' and getattr(self, 'plain_call', None) is not None and self.plain_call(cpath):
+            # a function item of this crate that the reference tree already has (`.map(fingerprint)`): the element
+            # is the result of a plain call of it - the call stays visible as the anchor the rules look for
+            B.expanded.append('fn:' + cpath)
+            return B.block([], {'k': 'call', 'decl': cpath, 'full': cpath, 'callee': cpath, 'local': True, 'targs': [],
                                 'args': list(args), 'dest': dest_place, 'target': target, 'unwind': 'continue',
                                 'span': span, 'exp': False, 'synthetic': True})
         g = self.raw[cpath]
@@ -499,6 +506,25 @@ class Desugarer:
             B.blocks[bi] = dict(B.blocks[bi], stmts=B.blocks[bi]['stmts'] + pre,
                                 term={'k': 'switch', 'discr': cp(recv), 'targets': [[0, no]], 'otherwise': yes,
                                       'span': span, 'exp': True})
+            B._defs = None
+            return True
+        if kind == 'Option::get_or_insert_with':
+            # opt.get_or_insert_with(f): `match *opt { Some(ref mut x) => x, None => { *opt = Some(f()); <the new x> } }`
+            # (the receiver is a `&mut Option<T>`)
+            fresh = B.local('_')
+            have = B.block([{'k': 'assign', 'lhs': dict(dest), 'rv': {'k': 'ref', 'mut': True, 'place': P(
+                recv, 'deref', *downcast('Some', 1, OPT))}, 'span': span, 'exp': True}], goto(target, span))
+            store = B.block([assign_place(P(recv, 'deref'), agg_variant(OPT, 'Some', [mv(fresh)]), span),
+                             {'k': 'assign', 'lhs': dict(dest), 'rv': {'k': 'ref', 'mut': True, 'place': P(
+                                 recv, 'deref', *downcast('Some', 1, OPT))}, 'span': span, 'exp': True}],
+                            goto(target, span))
+            none = call(1, [], P(fresh), store)
+            d = B.local('isize')
+            unreachable = B.block([], {'k': 'unreachable', 'span': span, 'exp': True})
+            st = [assign(d, {'k': 'discr', 'place': P(recv, 'deref'), 'adt': OPT, 'variants': OPTION_VARIANTS}, span)]
+            sw = {'k': 'switch', 'discr': mv(d), 'targets': [[1, have], [0, none]], 'otherwise': unreachable,
+                  'span': span, 'exp': True}
+            B.blocks[bi] = dict(B.blocks[bi], stmts=B.blocks[bi]['stmts'] + pre + st, term=sw)
             B._defs = None
             return True
         is_opt = kind.startswith('Option::')
